@@ -49,7 +49,8 @@ def main():
                 open(p, "w").write(s.replace(old, new))
             status = {}
             for prop in m["props"]:
-                r = sh([sys.executable, CHECK, "--property", prop])
+                r = sh([sys.executable, CHECK, "--property", prop],
+                       env=dict(os.environ, AQV_EVIDENCE_DIR="/verif/.cache/selftest_evidence", AQV_REPLAY_DIR="/verif/.cache/selftest_replay"))
                 keys = re.findall(r"^--- \S+ (.*)$", r.stdout, re.M)
                 viol = "VIOLATION property=%s" % prop in r.stdout
                 want = m.get("expect", {}).get(prop)
